@@ -166,6 +166,25 @@ func (x *Exec) verifyBody(fn *ssa.Function, c *Contract, res *FuncResult) {
 			name = fmt.Sprintf("%s#%s", fname, e.Tag)
 		}
 		x.addOblKF(&Obligation{Name: name, Kind: "post", Tag: e.Tag, Func: fname, Pos: fmt.Sprintf("%s:%d", shortPath(e.File), e.Line), Guard: out.guard, Formula: f, Src: e.Src, Replay: rspec}, penv)
+		// vacuity guard for conditional property clauses `A ==> B`: some execution must reach
+		// the exit with A true, otherwise the clause says nothing (for instance because an
+		// abstraction made that path infeasible)
+		if imp, ok := e.E.(*CBin); ok && imp.Op == "==>" && e.Tag != "" {
+			ante := func() (a string) {
+				defer func() {
+					if r := recover(); r != nil {
+						if _, ok := r.(contractError); !ok {
+							panic(r)
+						}
+						a = ""
+					}
+				}()
+				return penv.evalBool(imp.L)
+			}()
+			if ante != "" && ante != "true" && !strings.Contains(ante, "(forall ") && !strings.Contains(ante, "(exists ") {
+				x.addObl(&Obligation{Name: name + "#cover.antecedent", Kind: "cover", Func: fname, Pos: fmt.Sprintf("%s:%d", shortPath(e.File), e.Line), Guard: out.guard, Formula: ante, Cover: true, Src: "antecedent reachable: " + imp.L.String()})
+			}
+		}
 	}
 	// reachability of the normal exit (vacuity guard for postconditions)
 	if len(c.Ensures) > 0 {
